@@ -762,6 +762,10 @@ func genCases(args []string) {
 	for _, dc := range deepCases(quick) {
 		emit(dc.tree, dc.o, dc.p, "deep")
 	}
+	// (0d) size classes of the fixed tables
+	for _, sc := range sizeCases(quick) {
+		emit(sc.tree, sc.o, sc.p, "size")
+	}
 	// (1) TLC shapes x leaves x options: every shape meets every option bit in both polarities over the run
 	var shapes []shape
 	if *shp != "" {
@@ -1239,5 +1243,68 @@ func deepCases(quick bool) []deepCase {
 	}
 	add(33, 2, opts{Tab: true, Sort: true})
 	add(129, 0, opts{Tab: true})
+	return res
+}
+
+// ---------------------------------------------------------------- size-class family (C04 and C10)
+// Every length that indexes one of the fixed tables of oj / sen / pretty (the 128-byte `spaces`, the tabs, pretty's padding
+// slices spaces[1:cw-size+1], spaces[1:pad+1], the key padding of an aligned multi-line object, SEN's 64-byte token limit):
+// keys and string values of length 0, 1, 64, 65, 127, 128, 129, 200, 300 mixed with short ones in one object / one table
+// column, under Width 1, 40, 127, 128, 129, 256, 1000 with and without Align and under the indenting oj / sen writers.
+var sizeClasses = []int{0, 1, 64, 65, 127, 128, 129, 200, 300}
+
+func sized(n int, c byte) string {
+	b := make([]byte, n)
+	for i := range b {
+		b[i] = c
+	}
+	if n > 2 {
+		b[0], b[n-1] = 'K', 'e'
+	}
+	return string(b)
+}
+
+func sizeCases(quick bool) []deepCase {
+	var res []deepCase
+	sd := int(seed())
+	widths := []int{1, 40, 127, 128, 129, 256, 1000}
+	oset := []opts{{HTMLUnsafe: true}, {Indent: 2, Sort: true}, {Indent: 9}, {Tab: true, Sort: true}, {Sort: true}}
+	n := 0
+	for _, ln := range sizeClasses {
+		k := sized(ln, 'k')
+		v := sized(ln, 'v')
+		near := sized(100+ln%28, 'w') // 100..127: an aligned column close to pretty's Width clamp (128)
+		trees := []M{
+			// an object laid out over several lines whose keys differ by ln bytes (key padding under Align)
+			aObj(k, aInt(1), "a", aStr("x"), "bb", aArr(aInt(1), aInt(2))),
+			aObj(k, aObj("in", aInt(1), k+"2", aStr("y")), "a", aInt(2)),
+			// aligned rows with a long key / a long cell / a missing long column
+			aArr(aObj(k, aInt(1), "a", aInt(2)), aObj(k, aInt(3), "a", aInt(4), "b", aInt(5))),
+			aArr(aObj("a", aStr(v), "b", aInt(1)), aObj("a", aStr("x"), "b", aInt(22))),
+			aArr(aArr(aStr(v), aInt(1)), aArr(aStr("y"), aInt(22)), aArr()),
+			aArr(aObj("a", aStr(near), "b", aInt(1)), aObj("a", aStr("x"), "b", aInt(22), "c", aStr("z"))),
+			// string values and keys of the size at top level and nested
+			aArr(aStr(v), aObj("k", aStr(v), "a", aInt(1))),
+			aObj("o", aObj(k, aStr(v)), "z", aArr(aStr(v), aStr("s"))),
+		}
+		for ti, t := range trees {
+			if quick && (ti == 1 || ti == 7) && (ln+sd)%2 == 0 {
+				continue
+			}
+			// all 14 (Width, Align) settings, spread over cases of 4-5 settings each; MaxDepth 3 and 1
+			for part := 0; part < 3; part++ {
+				ps := []pcfg{}
+				for wi, w := range widths {
+					for ai := 0; ai < 2; ai++ {
+						if (wi*2+ai)%3 == part {
+							ps = append(ps, pcfg{W: w, D: []int{3, 1, 2}[(wi+ai+n)%3], Al: ai == 0})
+						}
+					}
+				}
+				n++
+				res = append(res, deepCase{t, oset[(n+sd)%len(oset)], ps})
+			}
+		}
+	}
 	return res
 }
